@@ -170,6 +170,86 @@ def named_lookup():
     sx.reach("named")
 
 
+def remapped():
+    """the documented re-mapping flow: variables are looked up through the node (node.tpdo['name']), then one map is
+    re-mapped (clear() + add_variable() in another order), then values travel: the same node-level lookups reach the
+    variables where they are *now*"""
+    rig = Rig()
+    pm, cm = rig.producer.tpdo[1], rig.consumer.tpdo[1]
+    cob = sx.fresh_int("cob", 0x181, 0x57F)
+    order1 = [("Application Status", "Status All"), ("Application Status", "Actual Speed"), ("Feed", None)]
+    order2 = [("Feed", None), ("Application Status", "Actual Speed"), ("Application Status", "Status All")]
+
+    def setup(order):
+        for m in (pm, cm):
+            m.clear()
+            for grp, mem in order:
+                m.add_variable(grp, mem) if mem else m.add_variable(grp)
+            m.cob_id = cob
+            m.enabled = True
+            m.subscribe()
+    names = ("Application Status.Status All", "Application Status.Actual Speed", "Feed")
+    tag = "C15/remapped"
+    try:
+        setup(order1)
+        for nm in names:                    # first look-ups through the nodes
+            rig.consumer.tpdo[nm]
+            rig.producer.tpdo[nm]
+        rig.consumer.tpdo[0x2310]
+        setup(order2)
+        st = sx.fresh_int("status", 0, 255)
+        sp = sx.fresh_int("speed", -(1 << 15), (1 << 15) - 1)
+        fd = sx.fresh_int("feed", 0, 0xFFFF)
+        rig.producer.tpdo[names[0]].raw = st
+        rig.producer.tpdo[names[1]].raw = sp
+        rig.producer.tpdo[names[2]].raw = fd
+        pm.transmit()
+        got = (rig.consumer.tpdo[names[0]].raw, rig.consumer.tpdo[names[1]].raw, rig.consumer.tpdo[names[2]].raw,
+               rig.consumer.tpdo[0x2310].raw, cm[0].raw)
+    except Exception as e:
+        sx.observe("exc", C.exc_name(e))
+        sx.fail("re-mapping flow raised %s" % C.exc_name(e), tag + "/raises")
+        return
+    sx.observe("got", list(got))
+    sx.prove((got[0] == st) & (got[1] == sp) & (got[2] == fd) & (got[3] == fd) & (got[4] == fd),
+             "values read through node-level lookups after a re-mapping", tag + "/values")
+    sx.reach("remapped")
+
+
+def transmit_twice(tt):
+    """transmit() sends exactly the map's COB-ID and current data, every time it is called - also twice in quick
+    succession on a map with a configured inhibit time (event-driven transmission types)"""
+    rig = Rig()
+    cob = sx.fresh_int("cob", 0x181, 0x57F)
+    pm, cm = rig.producer.tpdo[1], rig.consumer.tpdo[1]
+    pvars = _configure(pm, "aligned", cob)
+    cvars = _configure(cm, "aligned", cob)
+    for m in (pm, cm):
+        m.trans_type = tt
+        m.inhibit_time = sx.fresh_int("inhibit", 0, 0xFFFF)
+        m.event_timer = sx.fresh_int("event", 0, 0xFFFF)
+    tag = "C15/transmit-twice/%d" % tt
+    for rnd in range(3):
+        vals = []
+        for i, (code, ln) in enumerate(LAYOUTS["aligned"]):
+            v = _fresh_value(code, ln, "v%d_%d" % (rnd, i))
+            vals.append(v)
+            pvars[i].raw = v
+        n0 = len(rig.frames)
+        pm.transmit()
+        new = rig.frames[n0:]
+        sx.prove(len(new) == 1 and new[0][0] == "a" and not new[0][3], "every transmit() sends one data frame",
+                 tag + "/frame-count")
+        if len(new) != 1:
+            return
+        sx.prove((new[0][1] == cob) & sx.eq_bytes(sx.mkbytes(sx.items(new[0][2])), sx.mkbytes(sx.items(pm.data))),
+                 "COB-ID and current data", tag + "/frame")
+        for i, v in enumerate(vals):
+            sx.prove(cvars[i].raw == v, "consumer reads the value just transmitted", tag + "/value")
+        sx.prove(cm.timestamp == rig.ts[-1], "timestamp of the latest frame", tag + "/timestamp")
+    sx.reach("transmit-twice")
+
+
 def roundtrip_from_od(code):
     """both sides take the PDO configuration from the object dictionary (read(from_od=True), as load_configuration
     does): one object of the given type fills the PDO - including the 64-bit types"""
@@ -493,7 +573,9 @@ def sequence(k, s0=None, s1=None):
 
 def jobs(tier):
     out = [dict(func="named_lookup", params={}), dict(func="remote_request_after_save", params={}),
-           dict(func="two_readers", params={}, weight=50)]
+           dict(func="two_readers", params={}, weight=50), dict(func="remapped", params={})]
+    for tt in (255, 254, 1):
+        out.append(dict(func="transmit_twice", params=dict(tt=tt)))
     for code in (0x1B, 0x15, 0x11, 0x07, 0x18) if tier == "quick" else (0x1B, 0x15, 0x11, 0x07, 0x18, 0x08, 0x10, 0x16, 0x19):
         out.append(dict(func="roundtrip_from_od", params=dict(code=code)))
     for layout in ("suite", "aligned", "straddle", "odd"):
@@ -533,7 +615,7 @@ META = dict(
                     "for PDO maps in this harness (frame format is C10's business)"],
     assumptions=["producer and consumer are configured with the same mapping by the harness"],
     stubs=["struct", "threading.Condition", "Network.send_message replaced by a loopback", "logging"],
-    required_reach=["named", "from-od", "rtr-saved", "two-readers", "two-readers-parked", "roundtrip", "collide-hit", "collide-miss", "collide-both", "wait-hit", "wait-timeout", "threads-woken", "threads-timeout", "rtr-sent",
+    required_reach=["remapped", "transmit-twice", "named", "from-od", "rtr-saved", "two-readers", "two-readers-parked", "roundtrip", "collide-hit", "collide-miss", "collide-both", "wait-hit", "wait-timeout", "threads-woken", "threads-timeout", "rtr-sent",
                     "rtr-suppressed", "rtr-od-sent", "rtr-od-suppressed", "collide-disabled", "seq-transmit", "seq-foreign", "seq-reconfigure", "sequence"],
     limits=dict(quick=dict(max_decisions=20000), thorough=dict(max_decisions=50000)),
     validate_every=dict(quick=5, thorough=31),
